@@ -198,8 +198,9 @@ func c18Stress(sc *c18Script) map[string]interface{} {
 	}
 	// the connection has ended: everything started for it must go away
 	notClosed := 0
+	endBy := time.Now().Add(1500 * time.Millisecond)
 	for _, s := range allSubs {
-		if !s.ClosedByGateway(T) {
+		if !s.ClosedByGateway(time.Until(endBy)) {
 			notClosed++
 		}
 	}
@@ -210,7 +211,7 @@ func c18Stress(sc *c18Script) map[string]interface{} {
 		}
 	}
 	var left []string
-	deadline := time.Now().Add(T)
+	deadline := endBy
 	for {
 		left = left[:0]
 		states := fed.GoroutineStates()
